@@ -37,6 +37,10 @@ def run(tier):
             raise AnalysisBroken('C16: %d reader units found, floor 17' % n)
         readers.mm_header_rule(chk, 'C16.mmhdr', prog, cfgname)
         readers.field_slice_rule(chk, 'C16.slice', prog, cfgname)
+        if readers.terminator_rule(chk, 'C16.term', prog, cfgname) < 16:
+            raise AnalysisBroken('C16: fewer than 16 header-field conversions found')
+        if readers.scatter_alignment_rule(chk, 'C16.scatter', prog, cfgname) < 8:
+            raise AnalysisBroken('C16: fewer than 8 triplet scatter blocks found')
         readers.expansion_capacity_rule(chk, 'C16.symcap', prog, cfgname)
         extent.elem_size_rule(chk, 'C16.elem', prog, {u.rel for u in prog.units if readers.READER_UNITS_PAT.search(u.rel)}, cfgname, floor=20)
         chk.floor('C16.base', 16 * (cfgs.index(cfgname) + 1))
